@@ -78,6 +78,10 @@ def main():
     A = "IXYZ_s12"
     for L in range(1, 5 if ck.quick else 6):
         texts += ["".join(t) for t in itertools.product(A, repeat=L)]
+    # the digit 0 (size 0, position 0, leading zeros) with a smaller letter alphabet
+    A0 = "IX_s01"
+    for L in range(1, 5 if ck.quick else 6):
+        texts += ["".join(t) for t in itertools.product(A0, repeat=L) if "0" in t]
     n_exh = len(texts)
     specs = [render_spec(rng) for _ in range(600 if ck.quick else 6000)]
     texts += [s[0] for s in specs]
